@@ -341,6 +341,47 @@ class Interp:
         s.add(*T.ext_axioms(fs))
         return s.check() == z3.unsat
 
+    def concrete_int(self, st, n, limit=64):
+        """The integer c in [0, limit] with pc => n == c, if there is one (a symbolic size that the path condition pins down,
+        e.g. the length of x[i:min(i + 3, n)] when i + 3 <= n is known); otherwise None.  The candidate comes from a model
+        of the path condition, the equality is then proved - nothing is assumed."""
+        if isinstance(n, int):
+            return n
+        if not (is_sym(n) and z3.is_int(n)):
+            return None
+        n = z3.simplify(n)
+        if z3.is_int_value(n):
+            return n.as_long()
+        # only the quantifier-free linear part of the path condition is used (a subset of the hypotheses: sound, and the
+        # answer does not depend on how long the solver spends on unrelated nonlinear / quantified facts)
+        def isnum(x):
+            return z3.is_rational_value(x) or z3.is_int_value(x)
+
+        def integer_only(f):
+            if not z3.is_expr(f) or z3.is_quantifier(f):
+                return False
+            for x in T.subterms(f).values():
+                if z3.is_quantifier(x):
+                    return False
+                if z3.is_app(x):
+                    k = x.decl().kind()
+                    if k == z3.Z3_OP_POWER or (k == z3.Z3_OP_MUL and sum(1 for c in x.children() if not isnum(c)) >= 2) \
+                            or (k in (z3.Z3_OP_DIV, z3.Z3_OP_IDIV, z3.Z3_OP_MOD) and not isnum(x.arg(1))):
+                        return False
+            return True
+        hyps = [f for f in st.pc if integer_only(f)]
+        s = z3.Solver()
+        s.set("timeout", 3000)
+        s.add(*hyps)
+        if s.check() != z3.sat:
+            return None
+        c = s.model().eval(n, model_completion=True)
+        if not z3.is_int_value(c) or not (0 <= c.as_long() <= limit):
+            return None
+        c = c.as_long()
+        s.add(n != c)
+        return c if s.check() == z3.unsat else None
+
     def truth(self, st, v):
         """Python truthiness of v on this path (forks on symbolic booleans)."""
         v = st.deref(v)
@@ -1117,8 +1158,14 @@ class Interp:
     def ex(self, node, st):
         m = getattr(self, "ex_" + type(node).__name__, None)
         if m is None:
-            raise Unsupported(f"statement {type(node).__name__}")
-        return m(node, st)
+            raise Unsupported(f"statement {type(node).__name__} [line {getattr(node, 'lineno', '?')}]")
+        try:
+            return m(node, st)
+        except Unsupported as e:
+            # diagnostics only: the innermost statement's line goes into the message once
+            if e.args and isinstance(e.args[0], str) and "[line " not in e.args[0] and hasattr(node, "lineno"):
+                e.args = (f"{e.args[0]} [line {node.lineno}]",) + tuple(e.args[1:])
+            raise
 
     def ex_Expr(self, node, st):
         if isinstance(node.value, ast.Constant):
